@@ -51,6 +51,20 @@ def gen(ctx, path):
             s = rnd.choice(starts)
             for a in (0.0, 0.37, 1.0):
                 c.add(**{"from": "srgb", "in": s + (a,), "path": [A, B] if A != "srgb" else [B], "mode": "a"})
+    # hues are angles: a stored hue outside [0, 360) (the signed form -120, one or two turns up) is the same colour
+    for A in ORDER:
+        hi = [i for i, r in enumerate(NODES[A]) if r is None]
+        if not hi:
+            continue
+        for h in (-120.0, -30.0, 360.0, 480.0, 725.5):
+            p = [0.5 * (r[0] + r[1]) if r is not None else h for r in NODES[A]]
+            if A in HWB:
+                p = [p[0], 0.2, 0.3]
+            if A in ("lch", "lchuv", "oklch"):
+                p[1] = 0.25 * NODES[A][1][1]
+            for B in ORDER:
+                if B != A and B not in LUMA and (not ctx.quick or rnd.random() < 0.5):
+                    c.add(**{"from": A, "in": tuple(p), "path": [B, A], "mode": "u"})
     # a user-defined colour type with an internal alpha field, wired in by the derive macro (harness: UserRgb)
     for A in ORDER:
         lat = lattice_in(A)
